@@ -50,6 +50,11 @@ def run(chk):
     src = load()
     pe = PE(src)
     chk.rule_text = "<=1 operator file per stem preserved by __setitem__; unload has no fs effect and adds no key; approx unique/None/error"
+    cls, fset, fdel, fget, defs, sites = fs_invariant(chk, src, pe)
+    rest(chk, src, pe, cls, fset, fdel, fget, defs, sites)
+
+
+def fs_invariant(chk, src, pe):
     cls = src.cls(INV)
     fset = cls.methods["__setitem__"]
     fdel = cls.methods["__delitem__"]
@@ -138,6 +143,10 @@ def run(chk):
                f"for the same header: the next read after unload/re-open fails with 'Too many items'; __setitem__ must remove the "
                f"sibling extension", where=fset.where, instance="stale sibling operator file",
                detail="state {<=1 file} is invariant under __setitem__ for error/no-error operators")
+    return cls, fset, fdel, fget, defs, sites
+
+
+def rest(chk, src, pe, cls, fset, fdel, fget, defs, sites):
     # ---- (2) header written first, on every set ---------------------------------------------------------
     first_ret = next((st.lineno for st in ast.walk(fset.node) if isinstance(st, ast.Return)), 10 ** 9)
     head_writes = [c for c, t, k in sites if k == "write" and "header_name" in ast.unparse(defs.get(getattr(t, "id", ""), t))]
